@@ -289,7 +289,7 @@ func makeSizes(p *pkg, fn string) []string {
 
 type setting struct {
 	Go, Kind, Tag, Def string
-	HasDef           bool
+	HasDef             bool
 }
 
 func rdpSettings(p *pkg) []setting {
@@ -502,6 +502,23 @@ func main() {
 		writeIfChanged(filepath.Join(*out, "Lifecycle.lean"), lc)
 	}
 	notes = append(notes, lnotes...)
+
+	// ---- Process.lean (C01, C16) -------------------------------------------
+	var pf []byte
+	var pnotes []string
+	func() {
+		defer func() {
+			if rec := recover(); rec != nil {
+				pnotes = append(pnotes, fmt.Sprintf("static tie unavailable for the packet loop's facts (extractor: %v); baseline kept", rec))
+				pf, _ = os.ReadFile(filepath.Join(baselineDir, "Process.lean"))
+			}
+		}()
+		pf, pnotes = processFacts(proto)
+	}()
+	if len(pf) > 0 {
+		writeIfChanged(filepath.Join(*out, "Process.lean"), pf)
+	}
+	notes = append(notes, pnotes...)
 
 	for _, m := range missing {
 		fmt.Println("extract: missing", m)
